@@ -598,12 +598,45 @@ def model_cs_run(spec):
     return {'ident': [], 'samples': [lib.frac(v) for v in spec['samples']], 'failed': bool(spec['failed'])}
 
 
+CS_REQUIRED = ('commitid', 'project', 'executable', 'benchmark', 'environment', 'result_value')
+
+
+def cs_entry_problems(e):
+    """what makes a result entry unusable for Codespeed (which identifies a result by these fields)"""
+    if not isinstance(e, dict):
+        return ['not an object: %r' % (e,)]
+    probs = ['%s is %s' % (k, 'missing' if k not in e else 'null') for k in CS_REQUIRED if e.get(k) is None]
+    if not probs and not isinstance(e['benchmark'], str):
+        probs.append('benchmark is not a string')
+    return probs
+
+
 def canon_cs_entry(e):
+    probs = cs_entry_problems(e)
+    if probs:
+        return {'run': -1, 'malformed': probs, 'raw': e, 'value': e.get('result_value') if isinstance(e, dict) else None,
+                'min': None, 'max': None, 'std': None}
     name = e['benchmark']
-    idx = int(name.split(' ')[0][1:])
+    try:
+        idx = int(name.split(' ')[0][1:])
+    except ValueError:
+        return {'run': -1, 'malformed': ['benchmark %r names no run' % name], 'raw': e, 'value': e['result_value'],
+                'min': None, 'max': None, 'std': None}
     return {'run': idx, 'value': e['result_value'], 'min': e.get('min'), 'max': e.get('max'), 'std': e.get('std_dev'),
             'commitid': e.get('commitid'), 'environment': e.get('environment'), 'project': e.get('project'),
             'executable': e.get('executable')}
+
+
+def report_malformed(ck, inp, sent, level):
+    """entries that do not say which run / project / revision they belong to: an oracle failure with the payload"""
+    bad = [e for e in sent if e.get('malformed')]
+    if bad:
+        fields = sorted(set(p.split(' ')[0] for e in bad for p in e['malformed']))
+        ck.oracle_fail('codespeed_entry_complete', inp, {'entries': [e['raw'] for e in bad][:4],
+                                                         'problems': [e['malformed'] for e in bad][:4]},
+                       signature={'clause': 'codespeed_entry_complete', 'fields': ','.join(fields), 'level': level,
+                                  'failed_run_entry': all((e.get('value') == -1) for e in bad)})
+    return [e for e in sent if not e.get('malformed')]
 
 
 def close(a, b, scale):
@@ -693,6 +726,9 @@ def oracle_cs(ck, case, o, inp):
     def fail(clause, detail, **sig):
         ck.oracle_fail(clause, inp, detail, signature=dict({'clause': clause}, **sig))
     sent = [e for q in o['reqs'] for e in q['entries']]
+    good = report_malformed(ck, inp, sent, 'reporter')
+    if len(good) != len(sent):
+        return
     if not case['incremental']:
         if len(o['reqs']) != 1 or sorted(e['run'] for e in sent) != list(range(case['n'])):
             fail('codespeed_one_entry_per_run', {'requests': len(o['reqs']), 'entries_for_runs': sorted(e['run'] for e in sent),
@@ -905,6 +941,8 @@ def check_cs_exec_sessions(ck, cases):
             reqs, order_u = p['reqs'], p['order']
             ans = answers[p['op']]
             sent = [e for q in reqs for e in q['entries']]
+            if len(report_malformed(ck, inp, sent, 'executor-session')) != len(sent):
+                continue
             mine = [k for k in keys if cs_endpoint_of(case, k) == u]
             # ---- oracle: every configured endpoint receives exactly its runs, each once (in incremental mode: those
             # that were reported as completed) ...
@@ -957,6 +995,10 @@ def check_cs_exec_sessions(ck, cases):
 
 
 def canon_cs_entry_keyed(e, idx):
+    probs = cs_entry_problems(e)
+    if probs:
+        return {'run': -1, 'malformed': probs, 'raw': e, 'value': e.get('result_value') if isinstance(e, dict) else None,
+                'min': None, 'max': None, 'std': None}
     key = (e.get('executable'), e['benchmark'].split(' ')[0])
     return {'run': idx.get(key, -1), 'value': e['result_value'], 'min': e.get('min'), 'max': e.get('max'),
             'std': e.get('std_dev')}
